@@ -11,14 +11,18 @@ import UVerif.Model.FastPosit
 namespace UVerif.PositC
 open UVerif UVerif.Posit UVerif.FP UVerif.Fast
 
-/-- posit8_equal / notEqual / lessThan / lessOrEqual / greaterThan / greaterOrEqual compare the `uint8_t` fields -/
+/-- posit8_equal / notEqual compare the `uint8_t` fields; lessThan / lessOrEqual / greaterThan / greaterOrEqual compare them
+    after the cast `(int8_t)` -/
 def relMask8 (a b : Nat) : Nat :=
   let a := a % 256; let b := b % 256
-  (if a = b then 1 else 0) + (if a ≠ b then 2 else 0) + (if a < b then 4 else 0) + (if a ≤ b then 8 else 0)
-   + (if a > b then 16 else 0) + (if a ≥ b then 32 else 0)
+  let sa := toSigned 8 a; let sb := toSigned 8 b
+  (if a = b then 1 else 0) + (if a ≠ b then 2 else 0) + (if sa < sb then 4 else 0) + (if sa ≤ sb then 8 else 0)
+   + (if sa > sb then 16 else 0) + (if sa ≥ sb then 32 else 0)
 
-/-- posit8_cmpp8: `return a.v - b.v;` (uint8_t operands promoted to int) -/
-def cmpp8 (a b : Nat) : Int := ((a % 256 : Nat) : Int) - ((b % 256 : Nat) : Int)
+/-- posit8_cmpp8: `return ((int8_t)a.v > (int8_t)b.v) - ((int8_t)a.v < (int8_t)b.v);` -/
+def cmpp8 (a b : Nat) : Int :=
+  let sa := toSigned 8 (a % 256); let sb := toSigned 8 (b % 256)
+  (if sa > sb then 1 else 0) - (if sa < sb then 1 else 0)
 
 /-- posit8_fromsi(int rhs) -/
 def fromsi (rhs : Int) : Nat :=
